@@ -79,6 +79,8 @@ def make_scenario(case):
                 b["status"] = vkmod.st_signal(f[1])
             elif f[0] == "launch":
                 b["launch_fail"] = True
+            elif f[0] == "execfail":
+                b["exec_fail"] = True      # fails after the fork: a child exists for a moment and exits with 255
             elif f[0] == "mkdir":
                 # the task's output directory cannot be created: a regular file sits where cond-out/<pkg>/tN.task should go
                 # (for experiments: where the package directory should go is not possible in the root, so block the parent of a sub-path)
